@@ -35,6 +35,8 @@ pub struct GenCfg {
     pub locals_budget: usize,
     /// plain strings only (no backslash / newline / control characters)
     pub plain_strings: bool,
+    /// arbitrary strings without line breaks (for checks whose oracle compares printed output line by line)
+    pub one_line_strings: bool,
     /// allow backslashes in string literals (their meaning is unspecified; C06 only)
     pub backslash_strings: bool,
     /// field names from the lexical pool (Lua reserved words that Sylt allows, underscores, long names)
@@ -81,6 +83,7 @@ impl GenCfg {
             fn_exprs_program_wide: false,
             locals_budget: 110,
             plain_strings: true,
+            one_line_strings: false,
             backslash_strings: false,
             lexical_names: false,
             scenario_weight: 2,
@@ -250,6 +253,7 @@ impl<'t, 'a, 'b> Gen<'t, 'a, 'b> {
                 14 | 15 => (b'0' + self.t.below(10) as u8) as char,
                 16 => *self.t.pick(&['[', '=', '-', '{', '}', '(', '#', '$', '`', '?']),
                 17 => char::from_u32(0x7f + self.t.below(3) as u32).unwrap_or('x'),
+                0 | 1 if self.cfg.one_line_strings => '\u{b}',
                 0 => '\n',
                 1 => '\r',
                 2 => '\t',
@@ -261,7 +265,10 @@ impl<'t, 'a, 'b> Gen<'t, 'a, 'b> {
                         '/'
                     }
                 }
-                5 => char::from_u32(1 + self.t.below(30) as u32).unwrap_or('x'),
+                5 => match char::from_u32(1 + self.t.below(30) as u32).unwrap_or('x') {
+                    '\n' | '\r' if self.cfg.one_line_strings => '\u{c}',
+                    c => c,
+                },
                 6 => 'é',
                 7 => '字',
                 8 => '😀',
